@@ -7,7 +7,7 @@
 (* A value v is a record with ALL of these fields (unused ones defaulted): *)
 (*   svc, ch, seq, st, layer, h1, h2 (HPAI: <<proto,a,b,c,d,port>>),       *)
 (*   cemi (a Cemi value, see below), dev (device information), fams        *)
-(* cemi: [code, kind \in {"ldata","raw"}, ... L_Data fields ..., raw]       *)
+(* cemi: [ck \in {"ldata","raw","none"}, code, ... L_Data fields ..., raw]   *)
 (***************************************************************************)
 EXTENDS Cemi
 
@@ -30,7 +30,7 @@ RoutingBusy == 1330
 Header(svc, bodyLen) == <<6, 16, Hi(svc), Lo(svc), Hi(bodyLen + 6), Lo(bodyLen + 6)>>
 HPAI(h) == <<8, h[1], h[2], h[3], h[4], h[5], Hi(h[6]), Lo(h[6])>>
 
-EncCemi(c) == IF c.kind = "ldata" THEN EncLData(c) ELSE EncRaw(c.code, c.raw)
+EncCemi(c) == IF c.ck = "ldata" THEN EncLData(c) ELSE EncRaw(c.code, c.raw)
 
 \* friendly name: 30 octets, ISO 8859-1, NUL padded; names of 30 or more characters are cut to the field
 Pad(s, n) == [i \in 1..n |-> IF i <= Len(s) THEN s[i] ELSE 0]
